@@ -471,6 +471,9 @@ def alg_step(case, reg, toks, t, fails):
                         m = re.match(r"@(\d+)\.(\d+)=K(\d+)\.(\d+)", x)
                         if m:
                             cl.append(int(m.group(3)))
+                            if kind in ("intersection", "difference") and (
+                                    int(m.group(1)) != 0 or not any(e[0] == int(m.group(3)) and e[1] == int(m.group(4)) for e in a)):
+                                fails.append("%s %s: fold visits an element that is not the left operand's own: %s" % (reg, kind, x))
                     if sorted(cl + yielded) != sorted(want):
                         fails.append("%s %s: fold visits %s after next yielded %s; the result is %s" % (reg, kind, cl, yielded, sorted(want)))
                     yielded += cl
@@ -497,8 +500,12 @@ def alg_step(case, reg, toks, t, fails):
             elif ch == "l":
                 pass
         if fork is not None and parts and parts[-1].startswith("[") and pi < len(parts):
-            cl = [int(m.group(3)) for m in (re.match(r"@(\d+)\.(\d+)=K(\d+)\.(\d+)", x)
-                                            for x in split_top(parts[-1][1:-1]) if x) if m]
+            ms_ = [m for m in (re.match(r"@(\d+)\.(\d+)=K(\d+)\.(\d+)", x)
+                               for x in split_top(parts[-1][1:-1]) if x) if m]
+            cl = [int(m.group(3)) for m in ms_]
+            if kind in ("intersection", "difference") and any(
+                    int(m.group(1)) != 0 or not any(e[0] == int(m.group(3)) and e[1] == int(m.group(4)) for e in a) for m in ms_):
+                fails.append("%s %s: the clone yields an element that is not the left operand's own: %s" % (reg, kind, parts[-1]))
             if sorted(cl + fork) != sorted(want):
                 fails.append("%s %s: the clone taken after %s yields %s; the result is %s" % (reg, kind, fork, cl, sorted(want)))
         if len(set(yielded)) != len(yielded):
@@ -662,6 +669,50 @@ def consume_step(case, reg, toks, t, fails):
         if parts[2] not in cands:
             fails.append("%s %s: Debug after %d items prints %s, the entries not yet yielded render as %s"
                          % (reg, op, gone, parts[2], esc_str(dbg_list(rest, lk, False))))
+    return True
+
+
+def umap_iter_step(case, sreg, toks, t, fails):
+    """borrowing iterators of a `Map<Key, (), N>`: every entry once, exact len / size_hint / count."""
+    pre = case.state[sreg]["ents"]
+    kind, script = toks[2], toks[4]
+    parts = split_top(t["ret"][1:-1]) if t["ret"] else []
+    pos = pi = 0
+    for ch in script_tokens(script):
+        if pi >= len(parts):
+            break
+        p = parts[pi]
+        rem = len(pre) - min(pos, len(pre))
+        if ch[0] == "t":
+            pos += int(ch[1:])
+            ch = "n"
+        if ch == "n":
+            pi += 1
+            if pos < len(pre):
+                e = pre[pos]
+                w = ("+@%d=()" % pos) if kind in ("values", "values_mut") else "+@%d=K%d.%d" % (pos, e[0], e[1])
+                if p != w:
+                    fails.append("%s as map, %s: step %d yielded %s, the entry there is %s" % (sreg, kind, pos, p, w))
+            elif p != "-":
+                fails.append("%s as map, %s: yielded %s after the end" % (sreg, kind, p))
+            pos += 1
+        elif ch == "l":
+            pi += 1
+            if p.isdigit() and int(p) != rem:
+                fails.append("%s as map, %s: len()=%s with %d items to come" % (sreg, kind, p, rem))
+        elif ch == "h":
+            pi += 1
+            if p != "%d..%d" % (rem, rem):
+                fails.append("%s as map, %s: size_hint %s with %d items to come" % (sreg, kind, p, rem))
+        elif ch in ("x", "f"):
+            pi += 1
+            if not p.isdigit() or int(p) != rem:
+                fails.append("%s as map, %s: count()=%s with %d items to come" % (sreg, kind, p, rem))
+            break
+        elif ch in ("d", "D"):
+            pi += 1
+        elif ch == "z":
+            break
     return True
 
 
@@ -1042,7 +1093,13 @@ def run(prop, ops_path, impl_path, profile):
                 continue
             reg = toks[0]
             if re.fullmatch(r"u[01]", reg):
-                # map-API view of a set register: no reference semantics here, but keep the state
+                # map-API view of a set register (`Map<Key, (), N>`): the iterator oracle applies, with
+                # `()` for the values; otherwise only the state is kept
+                if "iter" in fam and len(toks) >= 5 and toks[1] == "iter" and case.lawful and t["outcome"] == "ok":
+                    try:
+                        umap_iter_step(case, "s" + reg[1], toks, t, fails)
+                    except Exception as ex:       # noqa: BLE001
+                        fails.append("oracle-error: %r" % (ex,))
                 for r2, sn in t["snaps"].items():
                     if sn is not None:
                         if "struct" in fam:
@@ -1067,6 +1124,14 @@ def run(prop, ops_path, impl_path, profile):
             if "struct" in fam:
                 for r2, sn in t["snaps"].items():
                     check_struct(case, r2, sn, fam, fails)
+            if op in ("gdm", "gdum") and t["outcome"] == "ok" and t["ret"] and fam & {"struct", "gdm", "unchecked"}:
+                # whatever `==` answers: two of the returned `&mut` never point into the same slot
+                # (for the unchecked variant only when the requested keys are pairwise different)
+                slots = re.findall(r"\+@(\d+)=", t["ret"])
+                reqs = [x for x in toks[3].strip("[]").split(",") if x]
+                distinct_req = len({probe_cls(x) for x in reqs}) == len(reqs)
+                if len(set(slots)) != len(slots) and (op == "gdm" or (distinct_req and case.lawful)):
+                    fails.append("%s %s returned two mutable references into one slot: %s" % (reg, op, t["ret"]))
             faulted = t["outcome"] == "panic:inject"
             if case.lawful and not faulted and all(v is not None for v in t["snaps"].values()):
                 try:
